@@ -569,6 +569,10 @@ def run(ctx):
         {"key": "generic/mutant(D_NoFsync)", "module": "OffsetsFile", "cfg": "OffsetsFile_quick.cfg",
          "overrides": dict(gen, D_NoFsync="TRUE", **noexp), "expect": "violated",
          "violates": ("DurableBeforeReplace", "AlwaysLoadable"), "workers": 2},
+        # one writer per offsets file (the start-up guard of Plugin.Start)
+        {"key": "owner/faithful", "module": "OffsetsOwner", "cfg": "OffsetsOwner_quick.cfg", "expect": "ok", "workers": 2},
+        {"key": "owner/mutant(M_OneWriterPerFile=FALSE)", "module": "OffsetsOwner", "cfg": "OffsetsOwner_mutant.cfg",
+         "expect": "violated", "violates": ("RoundTripOwn", "NeverForeign"), "workers": 2},
         {"key": "format/residual", "module": "OffsetsFormat", "cfg": mcfg, "expect": "ok", "workers": 4},
         {"key": "format/mutant(M_ZeroOffsetsWritten=FALSE)", "module": "OffsetsFormat", "cfg": "OffsetsFormat_mutant.cfg",
          "expect": "violated", "violates": ("R_RoundTrip",), "workers": 2},
@@ -704,12 +708,60 @@ def run(ctx):
     if not seq_zero:
         raise vlib.Infra("the truncation family produced no table with a zero offset")
 
+    # ---------------------------------------------------------------- 3c. one writer per offsets file: two real Plugin.Start
+    own_cases = [p for p in tl["owner/faithful"].printed if "sp1" in p]
+    if len(own_cases) < 25:
+        raise vlib.Infra("OffsetsOwner exported only %d spelling pairs" % len(own_cases))
+    # the statement does not decide a path through a symlinked directory: observed and reported, never judged
+    own_cases = own_cases + [{"sp1": "plain", "sp2": "symlink", "sameFile": None, "secondRefused": None}]
+    ow_in = os.path.join(ctx.scratch, "c07_owner.ndjson")
+    with open(ow_in, "w") as f:
+        for i, c in enumerate(own_cases):
+            f.write(json.dumps({"id": i, "sp1": c["sp1"], "sp2": c["sp2"]}) + "\n")
+    ow_out = os.path.join(ctx.scratch, "c07_owner_out.json")
+    rc, txt = ctx.run_bin(bins["file"], "^TestVerifC07Owner$", env={"VERIF_CASES": ow_in, "VERIF_OUT": ow_out, "LOG_LEVEL": "fatal"}, timeout=900)
+    if rc != 0 or not os.path.exists(ow_out):
+        raise vlib.Infra("owner harness failed rc=%s:\n%s" % (rc, txt[-3000:]))
+    ow = json.load(open(ow_out))
+    if ow["executed"] != len(own_cases):
+        raise vlib.Infra("owner harness executed %d of %d cases" % (ow["executed"], len(own_cases)))
+    own_refused = own_both = 0
+    symlink_note = None
+    for c, r in zip(own_cases, ow["results"]):
+        if r.get("panic") or r.get("first_refused"):
+            raise vlib.Infra("owner harness: the first pipeline did not start: %r" % r)
+        foreign = [l["src"] for l in r["loaded"] if l["src"] != 1001]
+        own_ok = any(l["src"] == 1001 and any(kv["off"] == 500 for kv in l["streams"]) for l in r["loaded"])
+        if c["sameFile"] is None:
+            symlink_note = ("both pipelines started" if r["both_started"] else "the second pipeline was refused") + \
+                           (" and pipeline 1 then loads back %s" % ("its own table" if own_ok and not foreign else "a FOREIGN table %r" % r["loaded"])
+                            if r["both_started"] else "")
+            continue
+        if r["both_started"]:
+            own_both += 1
+        else:
+            own_refused += 1
+        if c["sameFile"] and r["both_started"]:
+            recs.append({"kind": "two_writers_one_offsets_file", "spelling1": c["sp1"], "spelling2": c["sp2"], "path1": r["path1"], "path2": r["path2"],
+                         "foreign_sources_loaded": foreign, "own_table_loaded": own_ok, "load_error": r.get("load_err", ""), "loaded": r["loaded"]})
+        elif not c["sameFile"] and r["both_started"] and (foreign or not own_ok):
+            recs.append({"kind": "foreign_table_loaded", "spelling1": c["sp1"], "spelling2": c["sp2"], "loaded": r["loaded"]})
+        elif not c["sameFile"] and not r["both_started"]:
+            ctx.drift += 1
+            vlib.log("MODEL-DRIFT: Plugin.Start refused a second pipeline on a DIFFERENT offsets file (%s vs %s)" % (r["path1"], r["path2"]))
+    vlib.log("one writer per file: %d spelling pairs through two real Plugin.Start: %d second starts refused, %d admitted; "
+             "NOTE (not decided by the statement) same file through a symlinked directory: %s"
+             % (len(own_cases) - 1, own_refused, own_both, symlink_note))
+
     # ---------------------------------------------------------------- 4. scenarios under strace (T)
     lim_f, lim_g = (90, 30) if quick else (5000, 2500)
     chosen_f, uniq_f, shapes_f = pick_schedules(ctx, file_sched, lim_f)
     # the fault schedule that distinguishes the D_RenameAfterFailedStep mutant from the code must be among the replayed ones
     def has_d6(s):
-        return any(set(st["fails"]) & {"open", "write", "sync"} == d6_steps for st in s["steps"] if st["op"] == "save")
+        # the mutant's counterexample may fail several steps of one save (write AND sync); the repaired code stops at the first
+        # failing step, so a replayable schedule has a non-empty subset of those failures in one save
+        return any((set(st["fails"]) & {"open", "write", "sync"}) and (set(st["fails"]) & {"open", "write", "sync"}) <= d6_steps
+                   for st in s["steps"] if st["op"] == "save")
     if d6_steps and not any(has_d6(s) for s in chosen_f):
         # TLC's shortest counterexample is one of several (parallel BFS): take a schedule with exactly that fault combination in
         extra = [s for s in file_sched if has_d6(s)]
@@ -1001,7 +1053,8 @@ def run(ctx):
     # every table and every fault shape is executed; of the schedules that differ only in which job/stream commits
     # where, a seeded sample unless the limit covers them all
     ctx.exhaustive = len(chosen_f) == uniq_f and len(chosen_g) == uniq_g
-    ctx.rule = ("(a0) offset 0: every TLC schedule containing a truncation run in-process through the real truncateJob/commit/save "
+    ctx.rule = ("(o) one writer per file: every ordered pair of offsets_file spellings (plain, ./, //, x/../, another file) through two real "
+                "Plugin.Start, refusal compared with OffsetsOwner.tla, foreign entries after both saved = violation.  (a0) offset 0: every TLC schedule containing a truncation run in-process through the real truncateJob/commit/save "
                 "and a fresh real load after every save (%d sequences, async and sync mode).  " % len(seq_cases) +
                 "(a) round trip: every job table TLC enumerates from OffsetsFormat.tla (%d; names over {a : space newline - e-acute} "
                 "incl. the empty name, plus 50 stream names / 6 file names made of format directives ('%%d', '%%%%', 'a%%20b', '%%!d(MISSING)'), "
@@ -1012,7 +1065,8 @@ def run(ctx):
                 "non-trivial = distinct (site, mode, injected faults, trace length).  (c) every disk content the crash semantics "
                 "allows after every system call (all byte prefixes) loaded by the real load().  (d) concurrent commits/saves/loads."
                 % (len(tables), uniq_f, uniq_g, shapes_f + shapes_g, "all fault shapes and a seeded sample of %d schedules" % len(scen)))
-    ctx.extra.update({"traced_scenarios": {"offsetDB.save": nfile, "offsetDB.save with failing fsync": nfile_sync,
+    ctx.extra.update({"owner_spelling_pairs": len(own_cases) - 1, "owner_second_start_refused": own_refused, "owner_both_started": own_both,
+                      "owner_symlinked_directory_observation": symlink_note, "traced_scenarios": {"offsetDB.save": nfile, "offsetDB.save with failing fsync": nfile_sync,
                                            "offset.Save": ngen, "offset.Save with failing fsync": ngen_sync},
                       "leftover_tempfile_schedules_replayed": n_left, "truncation_sequences": len(seq_cases), "truncation_loads": seq_loads, "truncation_loads_with_zero_offset": seq_zero,
                       "round_trip_tables": len(tables), "round_trip_failures": rt_bad, "scenarios_followed": len(done),
@@ -1034,6 +1088,8 @@ def run(ctx):
         "file; PARTIAL failing writes (short write followed by an error) cannot be injected without a source hook and are covered at "
         "model level only (OffsetsFile.tla, Partials)",
         "a crash is not executed; every post-crash content the model allows after each observed system call is materialised instead",
+        "one writer per offsets file is a stated mechanism (OffsetsOwner.tla, M_OneWriterPerFile): paths are compared after lexical "
+        "normalisation; the same file reached through a symlinked directory is observed and reported but not judged",
         "cross-job atomicity of a snapshot is not demanded (the code locks job by job); the file name stored in the file is not compared",
         "concurrency clause: probabilistic (timed stress), per-job staircase vectors make a torn snapshot recognisable",
     ]
